@@ -29,6 +29,10 @@ import (
 //	    marker the same transaction read (before and after its queries)
 //	    query := load <id> | name <n> | tag <t> | gitems <g> | links <i> | rlinks <g>
 //	           | f1 <g> <v> | f2 <t> | f3 <v> | count
+//	           | list <skip> <limit> | all                 empty filter: Parse("")+SetSkip/SetLimit+QueryIdsC (-1 = not set) / QueryIds(tx, "")
+//	           | f4 <g> | f5 <g> | f6 <t> | f7 <n> | f8 <i>  dotted fk / dotted set symbols of the item store
+//	           | wcount <n> | notags | subhas <g> | subcount <g> <n> | page <v> <skip> <limit>
+//	           | gname <n> | gtag <t> | gwtag <t> | gsub <v> | glist <skip> <limit>     group store
 //	    observation: "Q ids <id>..." | "Q item ..." | "Q count n n n" | "Q torn v1 v2" | "Q error ..."
 //	S <symbol>  /  P <filter>    symbol resolution / parsing under concurrency equals the sequential answer: "S same"
 //	X <helper>                   helper hammered from many goroutines gave the right answers: "X ok"
@@ -82,6 +86,7 @@ var c18TagPool = []string{"t0", "t1", "t2", "t3"}
 type c18World struct {
 	db     *boltz.DbImpl
 	stores *csStores
+	dir    string
 }
 
 // writer-side tracking of the current state, to issue only valid operations
@@ -245,21 +250,118 @@ type c18Query struct {
 	kind string
 	a    string
 	v    int64
+	s, l int64 // skip / limit of the paged kinds; -1 = not set
 }
 
 func (q c18Query) String() string {
 	switch q.kind {
 	case "f1":
 		return fmt.Sprintf("f1 %s %d", hxs(q.a), q.v)
-	case "f3":
-		return fmt.Sprintf("f3 %d", q.v)
-	case "count":
-		return "count"
+	case "f3", "wcount", "gsub":
+		return fmt.Sprintf("%s %d", q.kind, q.v)
+	case "count", "all", "notags":
+		return q.kind
+	case "list", "glist":
+		return fmt.Sprintf("%s %d %d", q.kind, q.s, q.l)
+	case "subcount":
+		return fmt.Sprintf("subcount %s %d", hxs(q.a), q.v)
+	case "page":
+		return fmt.Sprintf("page %d %d %d", q.v, q.s, q.l)
 	}
 	return q.kind + " " + hxs(q.a)
 }
 
-func c18GenQuery(r *rng) c18Query {
+// c18ParseQuery reads the tokens of a query back (replay)
+func c18ParseQuery(f []string) c18Query {
+	q := c18Query{kind: f[0], s: -1, l: -1}
+	num := func(k int) int64 {
+		if k >= len(f) {
+			return 0
+		}
+		n, _ := strconv.ParseInt(f[k], 10, 64)
+		return n
+	}
+	switch q.kind {
+	case "f1":
+		q.a = string(unhx(f[1]))
+		q.v = num(2)
+	case "f3", "wcount", "gsub":
+		q.v = num(1)
+	case "count", "all", "notags":
+	case "list", "glist":
+		q.s, q.l = num(1), num(2)
+	case "subcount":
+		q.a = string(unhx(f[1]))
+		q.v = num(2)
+	case "page":
+		q.v, q.s, q.l = num(1), num(2), num(3)
+	default:
+		if len(f) > 1 {
+			q.a = string(unhx(f[1]))
+		}
+	}
+	return q
+}
+
+// c18Paging: every reader has its own skip / limit (so that paging leaking from one reader's query
+// object into another's changes the answer), now and then one of them is left unset
+func c18Paging(r *rng, reader int) (int64, int64) {
+	s, l := int64(reader%4), int64(1+(reader*3)%8)
+	switch r.intn(6) {
+	case 0:
+		s = -1
+	case 1:
+		l = -1
+	case 2:
+		s, l = int64(r.intn(5)), int64(r.intn(9))
+	}
+	return s, l
+}
+
+func c18GenQuery(r *rng, reader int) c18Query {
+	if r.chance(62) {
+		// the kinds added for shared mutable objects: empty filter + paging, dotted symbols, sub-queries
+		switch r.intn(17) {
+		case 0, 1:
+			s, l := c18Paging(r, reader)
+			return c18Query{kind: "list", s: s, l: l}
+		case 2:
+			return c18Query{kind: "all"}
+		case 3:
+			return c18Query{kind: "f4", a: r.pick(c18Groups)}
+		case 4:
+			return c18Query{kind: "f5", a: r.pick(c18Groups)}
+		case 5:
+			return c18Query{kind: "f6", a: r.pick(c18TagPool)}
+		case 6:
+			return c18Query{kind: "f7", a: r.pick(c18NamePool)}
+		case 7:
+			return c18Query{kind: "f8", a: r.pick(c18Ids)}
+		case 8:
+			return c18Query{kind: "wcount", v: int64(r.intn(4))}
+		case 9:
+			return c18Query{kind: "notags"}
+		case 10:
+			return c18Query{kind: "subhas", a: r.pick(c18Groups)}
+		case 11:
+			return c18Query{kind: "subcount", a: r.pick(c18Groups), v: int64(r.intn(3))}
+		case 12:
+			s, l := c18Paging(r, reader)
+			return c18Query{kind: "page", v: int64(r.intn(12)) - 3, s: s, l: l}
+		case 13:
+			return c18Query{kind: "gname", a: r.pick(c18NamePool)}
+		case 14:
+			return c18Query{kind: "gtag", a: r.pick(c18TagPool)}
+		case 15:
+			if r.chance(50) {
+				return c18Query{kind: "gwtag", a: r.pick(c18TagPool)}
+			}
+			return c18Query{kind: "gsub", v: int64(r.intn(16)) - 3}
+		default:
+			s, l := c18Paging(r, reader)
+			return c18Query{kind: "glist", s: s % 3, l: l}
+		}
+	}
 	switch r.intn(10) {
 	case 0:
 		return c18Query{kind: "load", a: r.pick(c18Ids)}
@@ -305,7 +407,69 @@ func (w *c18World) eval(tx *bbolt.Tx, q c18Query) (res string) {
 		}
 		return c18Ids2(ids)
 	}
+	// the caller's own query object: parse, put the caller's paging on it, run it
+	paged := func(st interface {
+		ast.SymbolTypes
+		QueryIdsC(tx *bbolt.Tx, query ast.Query) ([]string, int64, error)
+	}, f string) string {
+		query, err := ast.Parse(st, f)
+		if err != nil {
+			return "Q error " + hxs(err.Error())
+		}
+		if q.s >= 0 {
+			query.SetSkip(q.s)
+		}
+		if q.l >= 0 {
+			query.SetLimit(q.l)
+		}
+		ids, _, err := st.QueryIdsC(tx, query)
+		if err != nil {
+			return "Q error " + hxs(err.Error())
+		}
+		return c18Ids2(ids)
+	}
+	groupIds := func(f string) string {
+		ids, _, err := s.group.QueryIds(tx, f)
+		if err != nil {
+			return "Q error " + hxs(err.Error())
+		}
+		return c18Ids2(ids)
+	}
 	switch q.kind {
+	case "list":
+		return paged(s.item, "")
+	case "glist":
+		return paged(s.group, "")
+	case "all":
+		return queryIds("")
+	case "f4":
+		return queryIds(fmt.Sprintf(`group.name = "G%s"`, q.a))
+	case "f5":
+		return queryIds(fmt.Sprintf(`anyOf(watchers.name) = "G%s"`, q.a))
+	case "f6":
+		return queryIds(fmt.Sprintf(`anyOf(group.items.tags) = "%s"`, q.a))
+	case "f7":
+		return queryIds(fmt.Sprintf(`anyOf(watchers.items.name) = "%s"`, q.a))
+	case "f8":
+		return queryIds(fmt.Sprintf(`anyOf(watchers.watching) = "%s"`, q.a))
+	case "wcount":
+		return queryIds(fmt.Sprintf(`count(watchers) >= %d`, q.v))
+	case "notags":
+		return queryIds(`isEmpty(tags)`)
+	case "subhas":
+		return queryIds(fmt.Sprintf(`not isEmpty(from watchers where name = "G%s")`, q.a))
+	case "subcount":
+		return queryIds(fmt.Sprintf(`count(from watchers where name != "G%s") >= %d`, q.a, q.v))
+	case "page":
+		return paged(s.item, fmt.Sprintf(`val >= %d sort by val desc, name`, q.v))
+	case "gname":
+		return groupIds(fmt.Sprintf(`anyOf(items.name) = "%s"`, q.a))
+	case "gtag":
+		return groupIds(fmt.Sprintf(`anyOf(items.tags) = "%s"`, q.a))
+	case "gwtag":
+		return groupIds(fmt.Sprintf(`anyOf(watching.tags) = "%s"`, q.a))
+	case "gsub":
+		return groupIds(fmt.Sprintf(`not isEmpty(from watching where val < %d)`, q.v))
 	case "load":
 		e, found, err := s.item.FindById(tx, q.a)
 		if err != nil {
@@ -416,6 +580,7 @@ type c18Helper struct {
 }
 
 func c18Helpers(w *c18World) []c18Helper {
+	fixture := &c18FixtureOnce{}
 	refErr := boltz.NewReferenceByIdError("items", "i1", "groups", "g1", "group")
 	dupErr := error(&boltz.UniqueIndexDuplicateError{Field: "name", Value: "x", EntityType: "items"})
 	nfErr := boltz.NewNotFoundError("items", "id", "i1")
@@ -451,7 +616,149 @@ func c18Helpers(w *c18World) []c18Helper {
 			n := c18Symbols[i%len(c18Symbols)]
 			return w.symbolAnswer(n) == w.symbolAnswer(n)
 		}},
+		// every caller lists a fixed population through the empty filter with its own paging; the
+		// answer must be the caller's page, and an unpaged listing must stay unpaged
+		{c18HelperEmptyPaged, func(i int) bool {
+			fx := fixture.get(w)
+			if fx == nil {
+				return false
+			}
+			ok := true
+			_ = fx.w.db.View(func(tx *bbolt.Tx) error {
+				q := c18Query{kind: "list", s: int64(i % 4), l: int64(1 + i%7)}
+				if i%3 == 1 {
+					q.s = -1
+				}
+				if fx.w.eval(tx, q) != c18Ids2(c18Page(fx.ids, q.s, q.l)) {
+					ok = false
+				}
+				if i%5 == 0 && fx.w.eval(tx, c18Query{kind: "all"}) != c18Ids2(fx.ids) {
+					ok = false
+				}
+				if i%7 == 0 && fx.w.eval(tx, c18Query{kind: "glist", s: int64(i % 2), l: -1}) != c18Ids2(c18Page(c18Groups, int64(i%2), -1)) {
+					ok = false
+				}
+				return nil
+			})
+			return ok
+		}},
+		// filters over dotted (composite) symbols, set functions and sub-queries on a fixed population,
+		// each call in its own read transaction: the answer must be the sequential one
+		{c18HelperDotted, func(i int) bool {
+			fx := fixture.get(w)
+			if fx == nil {
+				return false
+			}
+			ok := true
+			_ = fx.w.db.View(func(tx *bbolt.Tx) error {
+				k := i % len(fx.queries)
+				if fx.w.eval(tx, fx.queries[k]) != fx.expected[k] {
+					ok = false
+				}
+				return nil
+			})
+			return ok
+		}},
 	}
+}
+
+const (
+	c18HelperEmptyPaged = "boltz.BaseStore.QueryIdsC/empty-filter-with-own-paging"
+	c18HelperDotted     = "boltz.BaseStore.QueryIds/dotted-symbols-and-subqueries"
+)
+
+func c18Page(ids []string, skip, limit int64) []string {
+	if skip > 0 {
+		if skip >= int64(len(ids)) {
+			return nil
+		}
+		ids = ids[skip:]
+	}
+	if limit >= 0 && limit < int64(len(ids)) {
+		ids = ids[:limit]
+	}
+	return ids
+}
+
+// c18Fixture: a second database with a fixed population, so that the two hammered query helpers (and
+// their replay "X <helper>") do not depend on where the writer of the run happened to stop
+type c18Fixture struct {
+	w        *c18World
+	ids      []string
+	queries  []c18Query
+	expected []string // sequential answers, computed before any concurrent use
+}
+
+type c18FixtureOnce struct {
+	once sync.Once
+	fx   *c18Fixture
+}
+
+func (f *c18FixtureOnce) get(w *c18World) *c18Fixture {
+	f.once.Do(func() {
+		dir := filepath.Join(w.dir, "fixture")
+		if err := os.MkdirAll(dir, 0o755); err != nil {
+			return
+		}
+		fw, err := c18Open(dir)
+		if err != nil {
+			return
+		}
+		fx := &c18Fixture{w: fw}
+		err = fw.db.Update(nil, func(ctx boltz.MutateContext) error {
+			for i := 0; i < 12; i++ {
+				it := c18Item{id: fmt.Sprintf("f%02d", i), name: c18NamePool[i], val: int64(i) - 2}
+				if i%4 != 3 {
+					g := c18Groups[i%3]
+					it.group = &g
+				}
+				for b, t := range c18TagPool {
+					if (i+1)&(1<<b) != 0 {
+						it.tags = append(it.tags, t)
+					}
+				}
+				fx.ids = append(fx.ids, it.id)
+				if e := fw.apply(ctx, c18Op{kind: "put", it: it}); e != nil {
+					return e
+				}
+				if e := fw.apply(ctx, c18Op{kind: "link", a: it.id, b: c18Groups[(i+1)%3]}); e != nil {
+					return e
+				}
+				if i%2 == 0 {
+					if e := fw.apply(ctx, c18Op{kind: "link", a: it.id, b: c18Groups[(i+2)%3]}); e != nil {
+						return e
+					}
+				}
+			}
+			return nil
+		})
+		if err != nil {
+			return
+		}
+		for _, g := range c18Groups {
+			fx.queries = append(fx.queries, c18Query{kind: "f4", a: g}, c18Query{kind: "f5", a: g}, c18Query{kind: "subhas", a: g},
+				c18Query{kind: "subcount", a: g, v: 1})
+		}
+		for _, t := range c18TagPool {
+			fx.queries = append(fx.queries, c18Query{kind: "f6", a: t}, c18Query{kind: "gtag", a: t}, c18Query{kind: "gwtag", a: t})
+		}
+		for _, n := range c18NamePool[:6] {
+			fx.queries = append(fx.queries, c18Query{kind: "f7", a: n}, c18Query{kind: "gname", a: n})
+		}
+		for _, id := range fx.ids[:4] {
+			fx.queries = append(fx.queries, c18Query{kind: "f8", a: id})
+		}
+		fx.queries = append(fx.queries, c18Query{kind: "wcount", v: 2}, c18Query{kind: "gsub", v: 0},
+			c18Query{kind: "page", v: 0, s: 1, l: 4}, c18Query{kind: "f1", a: "g1", v: 0})
+		_ = fw.db.View(func(tx *bbolt.Tx) error {
+			for _, q := range fx.queries {
+				fx.expected = append(fx.expected, fw.eval(tx, q))
+			}
+			return nil
+		})
+		f.fx = fx
+	})
+	return f.fx
 }
 
 // ---- command ------------------------------------------------------------------------------------------
@@ -468,7 +775,7 @@ func c18Open(dir string) (*c18World, error) {
 	if err != nil {
 		return nil, err
 	}
-	w := &c18World{db: db, stores: newCsStores()}
+	w := &c18World{db: db, stores: newCsStores(), dir: dir}
 	err = db.Update(nil, func(ctx boltz.MutateContext) error {
 		if e := w.stores.init(ctx.Tx()); e != nil {
 			return e
@@ -583,7 +890,7 @@ func runC18(o *opts) error {
 					nq := 2 + r.intn(4)
 					var mine []c18Rec
 					for k := 0; k < nq; k++ {
-						q := c18GenQuery(r)
+						q := c18GenQuery(r, ri)
 						mine = append(mine, c18Rec{reader: ri, tx: txn, version: v1, q: q, obs: w.eval(tx, q)})
 						if k == 0 {
 							time.Sleep(time.Duration(r.intn(300)) * time.Microsecond)
@@ -804,17 +1111,7 @@ func c18Replay(w *c18World, path string, cases, impl *lineWriter) error {
 				impl.line("W error %s", hxs(werr.Error()))
 			}
 		case "Q":
-			q := c18Query{kind: f[4]}
-			switch q.kind {
-			case "f1":
-				q.a = string(unhx(f[5]))
-				q.v, _ = strconv.ParseInt(f[6], 10, 64)
-			case "f3":
-				q.v, _ = strconv.ParseInt(f[5], 10, 64)
-			case "count":
-			default:
-				q.a = string(unhx(f[5]))
-			}
+			q := c18ParseQuery(f[4:])
 			_ = w.db.View(func(tx *bbolt.Tx) error {
 				impl.line("%s", w.eval(tx, q))
 				return nil
